@@ -26,7 +26,8 @@ RULE = ('Token-soup fuzzer: texts are concatenations of 1-14 tokens drawn from d
         ' Also: a three-member date shape sweep (number classes x month-name position x separators x flag combinations), overlapping calls under the baton scheduler and free-running threads (each outcome must equal that of the same call alone), in-process TZ switches between zones sharing abbreviations, non-text inputs incl. memoryview / array / set / complex.')
 ASSUMPTIONS = ['bytes input is UTF-8 text (undecodable bytes are not "text input")',
                'tzinfos mappings/callables supplied by the harness return only documented value types',
-               'promptness is judged on executed-line counts, never on wall clock']
+               'promptness is judged on executed-line counts plus two relations between process-CPU times of calls made back to back '
+               '(fuzzy_with_tokens vs fuzzy on one text; 20 000 vs 2 000 repetitions of a unit) with wide slack - never on wall clock']
 MANIFEST = {
     'technique': 'runtime monitor on parser.parse (exception whitelist at the raise path, re-issue determinism check, sys.monitoring line-count bound) under a token-soup fuzzer; overlapping calls under a line-granular thread scheduler compared with the same calls alone',
     'level_text': 'The real parse() is driven with tens of thousands of hostile texts and option sets; the monitor sees every '
@@ -159,8 +160,12 @@ def gen_options(rng, tz, P):
     r = rng.random()
     if r < .15:
         kw['tzinfos'] = {'BRST': -10800, 'EST': tz.tzoffset('EST', -18000), 'CET': 'CET-1CEST,M3.5.0,M10.5.0/3',
-                         'PST': tz.gettz('America/Los_Angeles') or tz.tzoffset('PST', -28800), 'IST': None}
+                         'PST': tz.gettz('America/Los_Angeles') or tz.tzoffset('PST', -28800), 'IST': None,
+                         'UTC': 0, 'GMT': 0, 'Z': 0, 'WET': 0, 'XST': 0}          # documented value types incl. an offset of zero
         label.append('tzdict')
+    elif r < .32:
+        kw['tzinfos'] = lambda name, offset: offset          # the offset handed in (None, zero, or seconds) is itself a documented return value
+        label.append('tzcall-offset')
     elif r < .25:
         def tzf(name, offset):
             if name is None and offset is None:
@@ -288,6 +293,17 @@ def one_case(ctx, st, lc, P, text, kinds, kind, kw, pinfo, label, other=None):
         else:
             ctx.violation('nondeterministic-or-state-leak', dict(case, between=other[0] if other else None),
                           'first %r, again %r' % (d1, d2))
+    # ... and nothing accumulated in the module-level parser object: a parser created just now gives the same outcome
+    if pinfo is None and (ctx.evaluations % 3 == 0 or label == ['directed']):
+        try:
+            out5 = ('ok', P.parser().parse(as_input(kind, text), **kw))
+        except Exception as e:
+            out5 = ('exc', e)
+        d5 = mon_parse.describe_outcome(out5)
+        ctx.count('fresh_parser_comparisons')
+        if d5 != d2 and d1 == d2:
+            ctx.violation('nondeterministic-or-state-leak', dict(case, between=other[0] if other else None),
+                          'the long-lived module-level parser gives %r, a parser created just now gives %r' % (d2, d5))
     oc = d1[0] if d1[0] == 'ok' else d1[1]
     ctx.count('outcome_' + oc)
     ctx.distinct('%s|%s|%s|%s' % (oc, ','.join(sorted(kinds)), kind, ','.join(label + sorted(k for k in kw if k in ('fuzzy', 'ignoretz')))))
@@ -339,6 +355,7 @@ def run(ctx):
         uninstall()
     if ctx.shard == 0:
         option_cost_relation(ctx, P)
+        scaling_relation(ctx, P)
         concurrent_calls(ctx, P, PP, ctx.rng)
         # the outcome is a function of the arguments, the default and the *current* process time zone: switching TZ between
         # calls (same abbreviations, other offsets) must not leave anything behind in the module-level or an instance parser
@@ -507,12 +524,57 @@ def failing_then_ordinary(ctx, st, lc, P):
     factories, decimal context, tokenizer): the failure must leave nothing behind"""
     failing = ['10:00 +99999999999:00', '10:00 -99999999999', '99999999999999999999', '1' * 400, '10:00 UTC+999999999999', '32/13/2000 +0300',
                '2003-09-25 10:00:00.' + '9' * 300 + ' -0300', 'Sep 25 2003 10:00 EST+99999999999', '']
+    # one abbreviation used with different numeric offsets in successive calls
+    for name in ('IST', 'CST', 'BST', 'XST'):
+        for offs in (('+0530', '+0200', '-0600'), ('-0600', '+0800', '+0100')):
+            prev = None
+            for off in offs:
+                for form in ('10:36 %s (%s)' % (off, name), '10:36 %s%s' % (name, off[:3])):
+                    one_case(ctx, st, lc, P, form, ['directed-same-name'], 'str', {}, None, ['directed'], other=prev)
+                    prev = (form, {})
+                    ctx.count('same_name_other_offset')
     ordinary = ['2003-09-25 10:00 +03:00', 'Thu, 25 Sep 2003 10:49:41 -0300', '2003-09-25T10:49:41.5-03:30', '10:00 UTC+3', 'Sep 25 2003 10:00 BRST-3']
     for bad in failing:
         for good in ordinary:
             for kw in ({}, {'fuzzy': True}):
                 one_case(ctx, st, lc, P, good, ['directed-after-failure'], 'str', dict(kw), None, ['directed'], other=(bad, {}))
                 ctx.count('failing_then_ordinary')
+
+
+def scaling_relation(ctx, P):
+    """ten times the text, about ten times the work: for repetitive long texts of several token kinds the process CPU time of
+    a call on 20 000 units is compared with that on 2 000 units.  A cost that grows with the square of the length shows as
+    a ratio near 100; the bound (40x plus 1.5 s of slack, best of 2) is far from both the linear 10x and measurement noise.
+    Like the option-cost relation this complements the line counter, which cannot see C-level work."""
+    import time as _t
+    shapes = [('12:30 ', {}), ('x99 ', {'fuzzy': True}), ('10 ', {'fuzzy': True}), ('Sep ', {'fuzzy': True}), ('1.5 ', {'fuzzy': True}),
+              ('am ', {'fuzzy': True}), (', ', {'fuzzy': True}), ('10h ', {}), ('-0300 ', {'fuzzy': True}), ('12:30 ', {'fuzzy_with_tokens': True}),
+              ('a.m. ', {'fuzzy': True}), ('T', {'fuzzy': True}), ('3rd ', {'fuzzy': True})]
+
+    def cost(text, kw):
+        best = None
+        for _ in range(2):
+            t0 = _t.process_time()
+            try:
+                P.parse(text, **kw)
+            except (ValueError, OverflowError):
+                pass
+            dt = _t.process_time() - t0
+            best = dt if best is None else min(best, dt)
+        return best
+    worst = (0, None)
+    for unit, kw in shapes:
+        small, large = cost(unit * 2000 + ' 3 May 2020', kw), cost(unit * 20000 + ' 3 May 2020', kw)
+        ctx.ev()
+        ctx.count('scaling_relations')
+        ctx.distinct('scaling|%s|%s' % (unit, sorted(kw)))
+        ratio = large / max(small, 1e-4)
+        if ratio > worst[0]:
+            worst = (round(ratio, 1), unit)
+        if large > 40 * small + 1.5:
+            ctx.violation('not-prompt', {'workload': 'scaling', 'text': '%r * n + date' % unit, 'options': sorted(kw)},
+                          '%r repeated 20000 times needs %.2f s of CPU time, 2000 times %.3f s (ratio %.0f; linear = 10)' % (unit, large, small, ratio))
+    ctx.note('scaling_worst_ratio', list(worst))
 
 
 def non_text(ctx, st, P):
